@@ -102,6 +102,60 @@ theorem sorted_ints_ascending (l : List Int64) :
     rw [hl'] at ih ⊢
     exact insertSorted_sorted x l' ih
 
+/-! ### the loop, through the interpreter -/
+
+/-- **One iteration of `for`.**  With `idx` items done out of `count`, the next item `(k, v)` is
+    bound to the loop variable(s), `forloop` is a fresh record saying exactly where the loop
+    stands — `Counter = idx + 1`, `Counter0 = idx`, `Revcounter = count - idx`,
+    `Revcounter0 = count - idx - 1`, `First` iff `idx = 0`, `Last` iff `idx + 1 = count`,
+    `Parentloop` the enclosing loop's record — the body is executed once, and the loop goes on
+    with the remaining items at `idx + 1`: once per element, in the order of the items. -/
+theorem for_iteration (fuel : Nat) (key value : Bytes) (body : List Node) (parent : Val) (k : Val) (v : Option Val)
+    (rest : List (Val × Option Val)) (idx count : Nat) (first last : Bool) :
+    forLoop T cfg g (fuel + 1) key value body parent ((k, v) :: rest) idx count first last = (do
+      modifyCur fun f =>
+        let p1 := f.priv.set key (bindItem k)
+        let p2 := match v with | some vv => if value = [] then p1 else p1.set value (.boxed vv false) | none => p1
+        let rec_ := loopRecord (Int64.ofNat (idx + 1)) (Int64.ofNat idx) (Int64.ofNat (count - idx)) (Int64.ofNat (count - (idx + 1))) (idx == 0) (idx + 1 == count) parent
+        { f with priv := p2.set b!"forloop" rec_ }
+      execNodes T cfg g fuel body
+      forLoop T cfg g fuel key value body parent rest (idx + 1) count (idx == 0) (idx + 1 == count)) := by
+  rw [forLoop]
+  rfl
+
+/-- … and when no item is left the loop is over: nothing more is rendered. -/
+theorem for_done (fuel : Nat) (key value : Bytes) (body : List Node) (parent : Val) (idx count : Nat) (first last : Bool) (σ : ES) :
+    (forLoop T cfg g (fuel + 1) key value body parent [] idx count first last).run σ = .ok () σ := by
+  rw [forLoop]
+  · rfl
+  · intro h; cases h
+
+/-- **`empty` runs exactly when there is nothing to iterate**: in the loop's own child context, a
+    `for` over a value without items executes its `empty` branch (nothing, if there is none) and
+    never the body; over a value with items it is the loop from position 0 and never the `empty`
+    branch. -/
+theorem for_empty_or_loop (fuel : Nat) (key value : Bytes) (obj : Expr) (rev srt : Bool) (body : List Node)
+    (empty : Option (List Node)) :
+    execNode T cfg g (fuel + 1) (.tagFor key value obj rev srt body empty) = (do
+      let fr ← cur
+      let parent : Val := (fr.priv.lookup b!"forloop").getD .nil
+      withFrame (childOf fr) do
+        let o ← eval T cfg g fuel obj
+        if (iterItems o.v rev srt).length == 0 then
+          (match empty with
+           | some eb => execNodes T cfg g fuel eb
+           | none => pure ())
+        else forLoop T cfg g fuel key value body (if isLoopRecord parent then parent else .nilptr)
+               (iterItems o.v rev srt) 0 (iterItems o.v rev srt).length true false) := by
+  unfold execNode
+  rfl
+
+/-- the record of the second of three iterations -/
+example : loopRecord (Int64.ofNat (1 + 1)) (Int64.ofNat 1) (Int64.ofNat (3 - 1)) (Int64.ofNat (3 - (1 + 1))) (1 == 0) (1 + 1 == 3) .nilptr
+    = .ptr (.struct b!"forloop" [(b!"Counter", .int 2), (b!"Counter0", .int 1), (b!"Revcounter", .int 2),
+        (b!"Revcounter0", .int 1), (b!"First", .bool false), (b!"Last", .bool false), (b!"Parentloop", .nilptr)] []) := by
+  rfl
+
 /-! ### branching -/
 
 /-- `ifequal a b T else E` and `ifnotequal a b E else T` are the same node. -/
